@@ -5,6 +5,8 @@ sys.path.insert(0, os.path.join(os.path.dirname(os.path.abspath(__file__)), 'vx'
 import registry
 
 TEXT = {
+ 'C05': ('Deductive proof (Verus) on the real compression.rs: from_accept_encoding_header only returns an encoding that is enabled for sending AND offered by the request; from_encoding_header accepts exactly the enabled encodings, identity/absent means none, everything else is refused with UNIMPLEMENTED carrying grpc-accept-encoding == exactly the enabled list; compress()/decompress() call the coder named by the encoding; decode_chunk rejects flag 1 without negotiated encoding with INTERNAL.',
+         'Assumed: the EnabledCompressionEncodings slot algebra is decided by Kani-complete harnesses (A-tonic-cfg-01); str split/trim as uninterpreted token list; flate2/zstd coders as uninterpreted functions with inverse axioms. Byte-string match arms are verified through rewrite R15 (first-match if-chain).'),
  'C12': ('Deductive proof (Verus) of the frame condition on the real InterceptedService::call with the real Request::{from_http,into_parts,from_parts,into_http}: on accept exactly one inner call whose uri/method/version/body are the original and whose headers are exactly the interceptor\'s metadata (no sanitising); on reject the inner service is not called and ResponseFuture::poll resolves to exactly Status::into_http (200, application/grpc, grpc-status/message/details + sanitized metadata, empty body).',
          'Assumed: tower Service seen through a ghost call log, pin-project projections, http::Request/Response records; Status::into_http contract is proved in unit status (same clause text).'),
  'C04': ('Deductive proof (Verus) on the real status.rs: Code::{from_i32,from_bytes,to_header_value} equal independent tables for ALL inputs (from_bytes total: any byte string), Status::add_header/to_header_map write exactly code/message/details/sanitized metadata and never fail, Status::from_header_map is total (no panic obligation left: every expect/unwrap discharged) and exact, lemma_status_roundtrip: write then read gives the same status; infer_grpc_status and code_from_h2 equal the mapping tables of the statement.',
